@@ -725,9 +725,10 @@ class _ObserverRun:
             return f"{name} raised {type(e).__name__}"
         return f"observer#{k}"
 
-    def mutate(self, c, cls) -> str:
-        """A burst of mutations applied to a deep / unpickled copy."""
-        t = self.tape
+    def mutate(self, c, cls, tape=None, count=True) -> str:
+        """A burst of mutations (applied to a deep / unpickled copy, or - with a replayed tape - to
+        the original and its twin alike)."""
+        t = tape if tape is not None else self.tape
         ci = class_info(cls)
         g = Gen(t)
         done = []
@@ -747,7 +748,8 @@ class _ObserverRun:
                         sub = class_info(fi.map_value_cls).fields
                         setattr(cur[key], sub[0].name, g.single(sub[0], 2))
                         done.append(f"{fi.name}[..].{sub[0].name}=…")
-                        self.stats["probe:mutated-message-inside-map-of-copy"] += 1
+                        if count:
+                            self.stats["probe:mutated-message-inside-map-of-copy"] += 1
                     else:
                         key = sorted(cur, key=repr)[0] if (cur and t.draw(2, "map-overwrite")) else g.scalar(kt, in_container=True, nonempty_str=True)
                         cur[key] = g.message(fi.map_value_cls, 2) if vt == "message" else g.scalar(vt, fi.map_value_cls, in_container=True)
@@ -757,7 +759,8 @@ class _ObserverRun:
                         sub = class_info(type(cur[0])).fields
                         setattr(cur[0], sub[0].name, g.single(sub[0], 2))
                         done.append(f"{fi.name}[0].{sub[0].name}=…")
-                        self.stats["probe:mutated-message-inside-list-of-copy"] += 1
+                        if count:
+                            self.stats["probe:mutated-message-inside-list-of-copy"] += 1
                     else:
                         cur.append(g.single(fi, 2, in_container=True))
                         done.append(f"{fi.name}.append")
@@ -767,7 +770,8 @@ class _ObserverRun:
                         f2 = t.choice(sub, "nested-field")
                         setattr(cur, f2.name, g.field_value(f2, 2))
                         done.append(f"{fi.name}.{f2.name}=…")
-                        self.stats["probe:mutated-nested-message-of-copy"] += 1
+                        if count:
+                            self.stats["probe:mutated-nested-message-of-copy"] += 1
                 else:
                     setattr(c, fi.name, g.field_value(fi, 1))
                     done.append(f"{fi.name}=…")
@@ -832,6 +836,23 @@ class _ObserverRun:
             steps += 1
             trace.append(f"mutated {name}: {what}")
             self._q1(m, twin, cls, "C14.Q3", f"after mutating a {name} ({what})")
+        # ---- latent state: the observers must not have left anything behind that shows only later.
+        #      Apply the SAME mutation burst to the observed original and to the never-observed twin
+        #      (replayed decisions), observe the original once more in between, and compare again.
+        for rnd in range(1 + tape.draw(2, "latent-rounds")):
+            start = len(tape.log)
+            what = self.mutate(m, cls, count=False)
+            seg = tape.log[start:]
+            what2 = self.mutate(twin, cls, tape=Tape.replay(seg), count=False)
+            steps += 1
+            if what != what2:
+                break        # the two had already diverged in a way the recipe can see; Q1 would have said so
+            trace.append(f"same mutations on original and twin: {what}")
+            stats["probe:identical-mutations-after-observers"] += 1
+            self._q1(m, twin, cls, "C14.Q1", f"after observers [{', '.join(obs_log)}] and then identical mutations "
+                                             f"[{what}] on the observed original and on its never-observed twin")
+            k = tape.weighted([4, 2, 1, 2, 1, 2, 3, 2, 3, 1, 1, 1, 2, 1], "observer")
+            obs_log.append(self.observe(m, cls, k))
         return True, steps, float(steps)
 
     def _q1(self, m, twin, cls, rule: str, when: str):
@@ -857,6 +878,19 @@ class _ObserverRun:
         pm, pt = presence_report(m, cls), presence_report(twin, cls)
         if pm != pt:
             raise Violation(rule, "presence-changed", f"{when}: presence report {pm} vs untouched twin {pt}")
+        # what it "subsequently encodes to" includes the size it announces and its delimited form
+        try:
+            lm = len(m)
+            sm = io.BytesIO()
+            m.dump(sm, betterproto.SIZE_DELIMITED)
+        except Exception as e:  # noqa: BLE001
+            raise Violation(rule, f"len-or-dump-raises-{type(e).__name__}", f"{when}: {e}")
+        if lm != len(bm):
+            raise Violation(rule, "len-changed", f"{when}: len(original) = {lm} but it encodes to {len(bm)} bytes")
+        if sm.getvalue() != wire.enc_varint(len(bm)) + bm:
+            raise Violation(rule, "delimited-encoding-changed",
+                            f"{when}: dump(SIZE_DELIMITED) of the original writes {sm.getvalue().hex()[:80]}, "
+                            f"expected varint({len(bm)}) + {bm.hex()[:60]}")
 
     def _q2(self, c, m, cls, name: str):
         if type(c) is not cls:
@@ -898,7 +932,7 @@ class ObserverSim(Simulator):
                    "serialized_on_wire of plain sub-message fields)", "an observer raising is recorded, not judged",
                    "nothing is demanded of a shallow copy's independence", "single actor: no interleaving to explore"]
     tiers = {
-        "quick": dict(runs=12000, chunk=200, wall_cap=300, det_sample=120),
+        "quick": dict(runs=8000, chunk=200, wall_cap=300, det_sample=100),
         "thorough": dict(runs=2000000, chunk=1000, wall_cap=1500, det_sample=3000),
     }
     expected_probes = ["probe:read-lazily-defaulted-nested-message", "probe:to_pydict-called",
